@@ -4,6 +4,8 @@ C19 — Simulations are reproducible and time is monotone.  (partial: see DESIGN
 import FsVerif.Proofs.PosExtra
 import FsVerif.Proofs.BufExtra
 import FsVerif.Proofs.Machine
+import FsVerif.Proofs.PosEquiv
+import FsVerif.Proofs.CBeltClock
 namespace FsVerif.Props.C19
 open FsVerif PosStore
 
@@ -11,8 +13,29 @@ open FsVerif PosStore
 theorem pos_time_monotone {s : PosStore} (h : Reachable s) (op : Op) : s.now ≤ (s.step op).1.now :=
   step_now_mono op (reachable_inv2 h)
 
-/-- The model is a function of configuration and operation sequence: two runs agree. -/
-theorem pos_deterministic (cfg : PosCfg) (ops : List Op) : run (init cfg) ops = run (init cfg) ops := rfl
+/-- Every model is a FUNCTION of configuration and operation sequence (a Lean definition has no hidden state), so two
+    runs of the same history agree by construction; that needs no theorem.  What does need one: the stores do not compute
+    with the identity of the objects they hold — the formal counterpart of "no dependence on id() values or hashing".
+    For the FCFS and priority classes: for every injective renaming g of item identities, the renamed history yields the
+    renamed final state and the renamed results, operation by operation. -/
+theorem pos_item_identity_equivariance (g : Nat → Nat) (hg : Function.Injective g) (cfg : PosCfg) (hf : cfg.filter = false)
+    (ops : List Op) :
+    run (init cfg) (ops.map (mapOp g)) = mapS g (run (init cfg) ops) ∧
+    outputs (init cfg) (ops.map (mapOp g)) = (outputs (init cfg) ops).map (mapRes g) :=
+  run_equivariant g hg ops (init cfg) hf
+
+/-- non-vacuity: renaming item 7 ↦ 107, 8 ↦ 108 in a history with a cancellation -/
+def demoOps : List Op :=
+  [.reservePut 0 0, .reservePut 0 0, .put 0 0 ⟨7, 0⟩, .put 0 1 ⟨8, 1⟩, .reserveGet 1 0 .always,
+   .reserveGet 1 0 .always, .cancelGet 2, .get 1 3]
+
+example : outputs (init { cap := some 2 }) (demoOps.map (mapOp (· + 100))) = (outputs (init { cap := some 2 }) demoOps).map (mapRes (· + 100)) ∧
+    (outputs (init { cap := some 2 }) demoOps).getLast? = some (.item ⟨8, 1⟩) := by decide +kernel
+
+/-- The simulated time of both conveyor models never decreases, whatever the operation (any state). -/
+theorem conveyors_time_monotone :
+    (∀ (s : CBelt) (op : CBelt.Op), s.now ≤ (s.step op).1.now) ∧ (∀ (s : SlotBelt) (op : SlotBelt.Op), s.now ≤ (s.step op).1.now) :=
+  ⟨CBelt.step_now_mono, SlotBelt.step_now_mono⟩
 
 
 /-- BufferStore: the clock only moves forward (adv adds, settle / kstep keep it). -/
